@@ -1,6 +1,8 @@
 package main
 
 import (
+	"net"
+	"crypto/tls"
 	"encoding/binary"
 	"fmt"
 	"math/rand"
@@ -28,6 +30,7 @@ type c18case struct {
 	krbConfOK                     bool
 	via                           string
 	extraAuth                     []string
+	tlsValue                      string // a spelling of the Tls setting other than the recognised "disable"
 }
 
 func keyOfLen(n int, seed byte) *string {
@@ -59,7 +62,7 @@ func (c c18case) fields() []string {
 
 func (c c18case) config(dir string, idp *fakeIdP) gwConfig {
 	os.MkdirAll(dir, 0o700)
-	g := gwConfig{authSet: true, tlsDisable: c.tlsDisable, hostSelection: c.hostsel, tokenAuth: bp(c.tokenAuth), enableUserTok: c.userTok}
+	g := gwConfig{authSet: true, tlsDisable: c.tlsDisable, tlsValue: c.tlsValue, hostSelection: c.hostsel, tokenAuth: bp(c.tokenAuth), enableUserTok: c.userTok}
 	if c.openid {
 		g.auth = append(g.auth, "openid")
 	}
@@ -130,6 +133,15 @@ func runC18(env *runEnv, idp *fakeIdP, c c18case, n int) {
 		obs = "hung"
 	}
 	logs := g.logs()
+	if obs == "started" && !c.tlsDisable {
+		// the listener of a configuration that did not disable TLS must speak TLS
+		tc, err := tls.DialWithDialer(&net.Dialer{Timeout: 2 * time.Second}, "tcp", fmt.Sprintf("127.0.0.1:%d", g.port), &tls.Config{InsecureSkipVerify: true})
+		if err != nil {
+			obs = "started-without-tls"
+		} else {
+			tc.Close()
+		}
+	}
 	if obs == "started" {
 		var ks []string
 		for _, m := range substMsgs {
@@ -204,6 +216,15 @@ func streamC18(env *runEnv) {
 		for _, oid := range []bool{true, false} {
 			add(func(c *c18case) { c.tokenAuth = ta; c.openid = oid; c.local = !oid; c.tlsDisable = false; c.via = pick(r, []string{"file", "env", "split"}) })
 		}
+	}
+	// no hosts under every selection mode
+	for _, hs := range []string{"roundrobin", "signed", "unsigned", "any"} {
+		add(func(c *c18case) { c.hostsel = hs; c.hosts = 0; c.qkLen = 32 })
+	}
+	// only the exact value "disable" turns TLS off: with another spelling the gateway serves TLS
+	// (so local authentication is allowed and the listener speaks TLS)
+	for _, v := range []string{"Disable", "DISABLE", "disabled", "auto"} {
+		add(func(c *c18case) { c.openid = false; c.local = true; c.tlsDisable = false; c.tlsValue = v; c.via = pick(r, []string{"file", "env"}) })
 	}
 	add(func(c *c18case) { c.idpOK = false })
 	add(func(c *c18case) { c.openid = false; c.local = true; c.tlsDisable = false; c.extraAuth = []string{"basic"} })
